@@ -23,6 +23,7 @@ type vProdScenario struct {
 	FailS3     bool    // offer upload failures
 	FailStore  bool    // offer UpdateOffsets failures
 	P, D       int     // per-scenario bounds (0 = the check's default)
+	AutoCreate bool    // the topic does not exist yet: the first produce auto-creates it (store calls are scheduling points)
 }
 
 type vProdSent struct {
@@ -58,8 +59,12 @@ func vRunProduce(s *sched.Sched, sc vProdScenario, monitor bool) *vProdRun {
 		r.S3.FailOn["UploadSegment"] = true
 		r.S3.FailOn["UploadIndex"] = true
 	}
-	r.Inner = metadata.NewInMemoryStore(vMeta(map[string]int{"t": 1}))
-	r.Store = &vStore{Store: r.Inner, S3: r.S3, FailUpd: sc.FailStore}
+	topics := map[string]int{"t": 1}
+	if sc.AutoCreate {
+		topics = map[string]int{"other": 1}
+	}
+	r.Inner = metadata.NewInMemoryStore(vMeta(topics))
+	r.Store = &vStore{Store: r.Inner, S3: r.S3, FailUpd: sc.FailStore, AllPoints: sc.AutoCreate}
 	r.H = vNewHandler(r.Store, r.S3)
 	r.H.logConfig.Buffer.MaxBatches = sc.MaxBatches
 	r.H.logConfig.Buffer.FlushInterval = 0
